@@ -36,7 +36,7 @@ def c02parse : Handler :=
 /-! ### C05
 
   `c05.ops <start> <n> op* => <startOk> <n> (id bytes)* reads <n> step* final`
-     start := hdr <header> | wire <bytes>
+     start := hdr <header> | wire <list bytes prevs> <bytes>
      op    := set <id> <bytes> | del <id>
      reads := <bool X> <u16 profile> <list u8 ids> <n> (id obytes)*
      step  := (ok | err <k> | panic) reads
@@ -55,7 +55,7 @@ def rdStart : Rd Pred.C05.Start := do
   let t ← Rd.tok
   match t with
   | "hdr" => do let h ← rdHeader; pure (.hdr h)
-  | "wire" => do let b ← Rd.bytes; pure (.wire b)
+  | "wire" => do let ps ← Rd.list Rd.bytes; let b ← Rd.bytes; pure (.wire ps b)
   | _ => Rd.fail
 
 def rdIdVal : Rd (UInt8 × Option Bytes) := do let id ← Rd.u8; let v ← Rd.obytes; pure (id, v)
